@@ -23,6 +23,7 @@ extern struct ccSpecCharId_info ccSpecCharIdTable[33];
 
 /* ---- environment: Buffer model (append-only text buffer) -------------------------------------- */
 #define H_BUFCAP 256
+#define H_MAXSPELL 16
 static char h_b[H_BUFCAP];
 static int  h_pos;
 static const long h_bufobj;
@@ -38,7 +39,8 @@ int    bufAdd1(Buffer b, int c)
 int    bufPuts(Buffer b, const char *s)
 {
 	int n = 0;
-	for (; *s; s++, n++) bufAdd1(b, *s);
+	for (; n < H_MAXSPELL && *s; s++, n++) bufAdd1(b, *s);	/* constant-bounded: the longest real spelling has 8 bytes */
+	CHECK("buffer model: spelling handed to bufPuts is a string of at most 16 bytes", *s == 0);
 	return n;
 }
 void   bufBack1(Buffer b)          { h_pos--; }
